@@ -16,7 +16,7 @@
 (***************************************************************************)
 EXTENDS SigNames, Json, IOUtils
 
-CONSTANT Level      \* "quick" | "full"
+CONSTANT Level      \* "quick" | "full" | "laws" (only the laws; with INVARIANT LawsHold: the negative configurations)
 
 VARIABLE c
 vars == <<c>>
@@ -111,6 +111,13 @@ FamDie == {C("die", FALSE, <<"-s", nm, "@ME">>) : nm \in UNION {NameOf(P, n) : n
 TrapConds == Texts \cup Bad \cup {ToString(n) : n \in 0..(P.maxn + 2)} \cup {"EXIT", "exit", "Exit", "SIGEXIT", "sigexit", "128", "399"}
 FamTrap ==
   {C("trap", FALSE, <<f, x>>) : f \in {"-p", "-", ""}, x \in TrapConds}
+  \* a command as the action; the action omitted before a number
+  \cup {C("trap", FALSE, <<"true", x>>) : x \in Exact \cup {ToString(n) : n \in 0..(P.maxn + 2)} \cup {"EXIT", "FOO", "int", "SIGINT"}}
+  \cup {C("trap", FALSE, <<x>>) : x \in {ToString(n) : n \in 0..(P.maxn + 2)} \cup {"00", "015", "INT", "EXIT", "-", "", "true"}}
+  \cup {C("trap", FALSE, <<ToString(n), y>>) : n \in {0, 1, 2, 15, P.rtmin, P.maxn}, y \in {"QUIT", "3", "EXIT", "0", "FOO", "quit", "RTMAX", "-"}}
+  \cup {C("trap", FALSE, w) : w \in {<<"1", "2", "3">>, <<"false", "USR1", "USR2">>, <<"exit", "TERM", "EXIT">>, <<"true", "INT", "FOO">>,
+                                     <<"INT", "2">>, <<"echo x", "INT">>, <<"-x", "INT">>, <<"--", "-", "INT">>, <<"true", "KILL">>, <<"9">>,
+                                     <<"true", "0", "EXIT">>, <<"15", "15">>}}
   \cup {C("trap", FALSE, w) : w \in {<<"-", "INT", "FOO">>, <<"-p", "INT", "TERM", "EXIT">>, <<"", "INT", "KILL">>, <<"-p", "EXIT", "0">>,
                                      <<"-", "USR1", "usr2">>, <<"", "USR1", "USR2", "15">>, <<"-p", "KILL", "STOP">>, <<"-p", "FOO", "INT">>,
                                      <<"-", "2", "QUIT">>}}
@@ -133,6 +140,8 @@ FamApi ==
 (***************************************************************************)
 AllNums == Numbers(P)
 AllSpellings == UNION {Spellings(P, n) : n \in AllNums}
+MirrorName(nm) == IF nm = "RTMIN" THEN "RTMAX" ELSE IF nm = "RTMAX" THEN "RTMIN"
+                  ELSE IF StartsWith(nm, "RTMIN+") THEN "RTMAX-" \o Tl(nm, 7) ELSE "RTMIN+" \o Tl(nm, 7)
 AllVariants(nm) == {nm, Down(nm), Cap(nm), "SIG" \o nm, "sig" \o Down(nm), "Sig" \o Down(nm), Alt(nm, FALSE)}
 NoSig(v) == ~StartsWith(Up(v), "SIG")
 
@@ -149,6 +158,15 @@ Law(id) ==
          /\ PosixNames \subseteq CatNames
          /\ \A i \in 1..Len(P.names) : P.names[i].req = (P.names[i].n \in PosixNames)
     [] id = "posix-fixed-numbers" -> \A i \in 1..Len(PosixFixed) : NumOfNamed(P, PosixFixed[i][1]) = PosixFixed[i][2]
+    [] id = "posix-fixed-names" ->              \* kill -l 6 is ABRT whatever other names 6 has
+         \A i \in 1..Len(PosixFixed) : NameOf(P, PosixFixed[i][2]) = {PosixFixed[i][1]}
+                                        /\ OperandPairs(P, ToString(PosixFixed[i][2])) = {<<PosixFixed[i][2], PosixFixed[i][1]>>}
+    [] id = "rt-names-mirror" ->                \* the realtime names are symmetric about the middle of the range
+         \A k \in 0..RtSpan(P) : {MirrorName(nm) : nm \in NameOf(P, P.rtmin + k)} = NameOf(P, P.rtmax - k)
+    [] id = "list-operand-forms" ->             \* kill.md Compatibility: no 0, no EXIT, never the SIG prefix
+         /\ ListOperand(P, "0").k = "err" /\ ListOperand(P, "EXIT").k = "err" /\ ListOperand(P, "").k = "err"
+         /\ \A nm \in AllSpellings : ListOperand(P, nm).k = "name" /\ ListOperand(P, "SIG" \o nm).k = "err"
+         /\ \A n \in AllNums : ListOperand(P, ToString(n)).k = "num" /\ n \in ListOperand(P, ToString(n)).ns
     [] id = "name-of-number-round-trip" ->      \* ParseSigSpec(NameOf(n)) = n in every context
          \A n \in AllNums : NameOf(P, n) # {} /\ \A nm \in NameOf(P, n) :
            /\ NameNum(P, nm) = Sig(n)
@@ -171,7 +189,8 @@ Law(id) ==
          /\ \A n \in AllNums : /\ StatusReadings(P, 384 + n) = {n} /\ StatusExact(P, 384 + n) = {n}
                                /\ n \in StatusReadings(P, 128 + n) /\ StatusReadings(P, 128 + n) \subseteq {n, 128 + n}
                                /\ n \in StatusReadings(P, n) /\ StatusOfSignal(n) > 128
-                               /\ StatusExact(P, StatusOfSignal(n)) = {n}
+                               /\ StatusExact(P, StatusOfSignal(n)) = {n} /\ StatusFirst(P, StatusOfSignal(n)) = n
+                               /\ StatusFirst(P, n) \in StatusReadings(P, n)
          /\ \A s \in 0..384 : StatusExact(P, s) = {}
          /\ StatusReadings(P, 0) = {}
     [] id = "no-ambiguity-with-options" ->      \* -NAME in any spelling is the signal, never an option cluster
@@ -216,7 +235,8 @@ Law(id) ==
          /\ ~ListAllOK(P, <<ListAll(P, FALSE)[3], ListAll(P, FALSE)[2], ListAll(P, FALSE)[1]>> \o SubSeq(ListAll(P, FALSE), 4, Len(ListAll(P, FALSE))), FALSE)
     [] OTHER -> FALSE
 
-LawIds == {"catalogue-well-formed", "posix-required-names", "posix-fixed-numbers", "name-of-number-round-trip",
+LawIds == {"catalogue-well-formed", "posix-required-names", "posix-fixed-numbers", "posix-fixed-names", "rt-names-mirror",
+           "list-operand-forms", "name-of-number-round-trip",
            "number-of-name-canonical", "kill-l-round-trip", "status-to-signal", "no-ambiguity-with-options",
            "contexts-agree", "numbers-agree", "trap-conditions", "list-all"}
 FamLaw == {[fam |-> "law", po |-> Law(id), w |-> <<id>>, op |-> "", t |-> "", n |-> 0] : id \in LawIds}
@@ -225,11 +245,14 @@ Fam(f) ==
   CASE f = "law" -> FamLaw [] f = "spec" -> FamSpec [] f = "targets" -> FamTargets [] f = "list" -> FamList
     [] f = "self" -> FamSelf [] f = "die" -> FamDie [] f = "trap" -> FamTrap [] f = "api" -> FamApi
 
-Families == {"law", "spec", "targets", "list", "self", "die", "trap", "api"}
+Families == IF Level = "laws" THEN {"law"} ELSE {"law", "spec", "targets", "list", "self", "die", "trap", "api"}
 
 Init == \E f \in Families : c \in Fam(f)
 Next == UNCHANGED c
 Spec == Init /\ [][Next]_vars
+
+\* the negative configurations: some law must fail for the wrong variant
+LawsHold == c.fam = "law" => c.po
 
 Emit == PrintT(ToJson([fam |-> c.fam, po |-> c.po, w |-> c.w, op |-> c.op, t |-> c.t, n |-> c.n,
                        xk |-> IF c.fam = "law" THEN "law" ELSE ExpectKind(P, c)]))
